@@ -245,6 +245,24 @@ class C06(Check):
             "coalesce": rng.choice([0.0, 0.0, 0.5]),
             "gap": rng.choice([[0.0, 0.0], [0.0, 0.002], [0.001, 0.004]]),
         }
+        rng9 = rng_for(seed, "C06-straddle", index)
+        if index >= 656 and code == 0x10 and rng9.random() < 0.04:
+            # a frame whose segments arrive 0.2 s apart after the connection has been idle for about I seconds, I around the
+            # protocol's timer values: no timer of the client may fire "between" the parts of a frame and tear it apart
+            idle = rng9.choice([0.5, 1.0, 2.0, 5.0, 10.0])
+            req = reqs[0]
+            plan["reactions"] = [[{"f": "ack", "echo": None, "d": 0.0, "join": False}, {"f": "data", "tag": new_tag(), "len": 2, "d": 0.0, "join": False}]]
+            plan["ops"] = [{"op": "write", "data": req, "timeout": None}, {"op": "read", "timeout": 2.0}, {"op": "read", "timeout": idle + 3.0}]
+            # every write of the gateway arrives in 1-3 parts, the first at once and the others 0.2 s later; the first exchange is
+            # therefore over 0.0 / 0.2 / 0.4 s after the accept, and the long frame is sent so that the instant "idle seconds after
+            # the previous frame" can fall between its parts
+            plan["unsolicited"] = [{"at": round(idle + rng9.choice([-0.1, 0.1, 0.3]), 3), "frames": [{"f": "data", "tag": new_tag(), "len": 40, "d": 0.0, "join": False}]}]
+            plan["net"]["segment"] = "random"
+            plan["net"]["max_parts"] = rng9.choice([2, 3])
+            plan["net"]["gap"] = [0.2, 0.2]
+            plan["net"]["coalesce"] = 0.0
+            plan["act"] = {"frames": [{"f": "act", "code": 0x10, "d": 0.0, "join": False}]}
+            plan["straddle"] = idle
         return plan
 
     def simplify(self, plan: dict[str, Any]) -> Any:
@@ -387,6 +405,8 @@ class C06(Check):
             shape.append(f"{e['cls']}@{ph}")
         outs = [f"{op['op'][0]}:{op['end']['out'] if op['end'] else 'hung'}" for op in ops]
         seg = plan["net"]["segment"]
+        if plan.get("straddle"):
+            bump(res["probes"], "frame_in_parts_0.2s_apart_after_an_idle_period_around_a_timer_value")
         res["shape"] = f"act{code}|" + ",".join(shape) + "|" + ",".join(outs) + "|" + (seg if isinstance(seg, str) else "split")
         nt = any(e["cls"] not in ("ack", "data_t", "activation") for e in gw.sent) or any(op["end"] and op["end"]["out"] != "ok" for op in ops if not op["arg"].get("drain")) or code != 0x10
         res["nontrivial"] = bool(nt or holder["net"].counters.get("segmented_writes"))
